@@ -317,19 +317,24 @@ type typeGuesser struct {
 }
 
 func (g *typeGuesser) Guess() (SchemaType, error) {
-	m := map[SchemaType]func() bool{
-		SchemaTypeString:  g.isString,
-		SchemaTypeInteger: g.isInteger,
-		SchemaTypeFloat:   g.isFloat,
-		SchemaTypeBoolean: g.isBoolean,
-		SchemaTypeObject:  g.isObject,
-		SchemaTypeArray:   g.isArray,
-		SchemaTypeNull:    g.isNull,
+	// The order matters (a map would be walked in a random order): isFloat holds
+	// for any text with a dot, a quoted token is a string whatever it contains.
+	l := []struct {
+		fn func() bool
+		t  SchemaType
+	}{
+		{g.isString, SchemaTypeString},
+		{g.isInteger, SchemaTypeInteger},
+		{g.isFloat, SchemaTypeFloat},
+		{g.isBoolean, SchemaTypeBoolean},
+		{g.isObject, SchemaTypeObject},
+		{g.isArray, SchemaTypeArray},
+		{g.isNull, SchemaTypeNull},
 	}
 
-	for t, fn := range m {
-		if fn() {
-			return t, nil
+	for _, c := range l {
+		if c.fn() {
+			return c.t, nil
 		}
 	}
 	return SchemaTypeUndefined, ErrUnknownSchemaType
